@@ -46,6 +46,36 @@ pub fn sfs_delayed(ctx: &Ctx, args: &[&str], stdin: &[u8], first: usize) -> Run 
     Run { code: out.status.code(), stdout: out.stdout, stderr: String::from_utf8_lossy(&out.stderr).into_owned() }
 }
 
+/// The input is given BY PATH, but the path is a named pipe fed slowly (first `first` bytes, a pause, the rest).
+/// Returns None when the pipe could not be set up (tool problem, not a verdict).
+pub fn sfs_fifo(ctx: &Ctx, args: &[&str], bytes: &[u8], first: usize, fifo: &str) -> Option<Run> {
+    let _ = std::fs::remove_file(fifo);
+    if !Command::new("mkfifo").arg(fifo).status().map(|s| s.success()).unwrap_or(false) {
+        return None;
+    }
+    // read-write open never blocks on Linux; our handle is closed once everything has been written
+    let mut w = std::fs::OpenOptions::new().read(true).write(true).open(fifo).ok()?;
+    let mut cmd = Command::new(&ctx.sfs_bin);
+    cmd.args(args).arg(fifo).env("SFS_ALLOW_STDIN", "1").env_remove("RUST_BACKTRACE").env_remove("RUST_LOG")
+        .stdout(Stdio::piped()).stderr(Stdio::piped()).stdin(Stdio::null());
+    let child = cmd.spawn().ok()?;
+    let data = bytes.to_vec();
+    let first = first.min(data.len());
+    let writer = std::thread::spawn(move || {
+        let _ = w.write_all(&data[..first]);
+        let _ = w.flush();
+        std::thread::sleep(std::time::Duration::from_millis(60));
+        let _ = w.write_all(&data[first..]);
+        // give the reader time to have the pipe open before our (last other) handle goes away
+        std::thread::sleep(std::time::Duration::from_millis(150));
+        drop(w);
+    });
+    let out = child.wait_with_output().ok()?;
+    let _ = writer.join();
+    let _ = std::fs::remove_file(fifo);
+    Some(Run { code: out.status.code(), stdout: out.stdout, stderr: String::from_utf8_lossy(&out.stderr).into_owned() })
+}
+
 pub fn sfs_env(ctx: &Ctx, args: &[&str], stdin: Option<&[u8]>, env: &[(&str, &str)]) -> Run {
     let mut cmd = Command::new(&ctx.sfs_bin);
     cmd.args(args)
